@@ -209,8 +209,13 @@ def slice_function(root, spec):
     for item in spec.get('subst', []):
         pat, rep, mn = item[0], item[1], item[2]
         body, k = re.subn(pat, rep, body, count=(item[3] if len(item) > 3 else 0), flags=re.S)
-        if k < mn:
+        # A listed rewrite that does not fire is an error only where the rewrite carries meaning of its own (prophecy assumption, induction
+        # twin, or a spec marked strict).  Pure translations (member call -> C call, container access -> stub) that find nothing to translate
+        # are harmless: if the construct is still there in another shape the C front end rejects the slice (exit 2), and if the code simply
+        # no longer contains it (e.g. a deleted guard) the slice must still be produced so that the contract can FAIL on it.
+        if k < mn and (spec.get('strict') or 'PROPHECY(' in rep or 'RECURSE(' in rep):
             raise SliceError('%s: required rewrite %r fired %d < %d times' % (spec['name'], pat, k, mn))
+        if k < mn: fired['unfired:' + pat] = mn - k
         fired['subst:' + pat] = k
     # R-tmpl
     for tp, ty in spec.get('tparams', {}).items():
@@ -245,7 +250,7 @@ def slice_function(root, spec):
         if mm:
             ctx = body[max(0, mm.start()-30):mm.end()+30].replace('\n', ' ')
             raise SliceError('%s: %s near: %s' % (spec['name'], msg, ctx))
-    header = '/* slice of %s:%d  rules: %s */\n' % (spec['file'], line, ', '.join('%s x%d' % kv for kv in sorted(fired.items()) if kv[1]))
+    header = '/* slice of %s:%d  rules: %s */\n' % (spec['file'], line, ', '.join('%s x%d' % kv for kv in sorted(fired.items()) if kv[1] and not kv[0].startswith('unfired:')))
     return header + spec['sig'] + '\n' + body + '\n', {'name': spec['name'], 'file': spec['file'], 'line': line, 'rules': {k: v for k, v in fired.items() if v}}
 
 def split_top_level(args):
